@@ -530,4 +530,8 @@ def run(F, rep):
     if n_t < 6 or len(seen_t) < 5:
         raise AnalysisBroken('C02.T1: 1.x transformation helpers called at %d sites (%s); 8 sites of 6 helpers confirmed' % (n_t, sorted(seen_t)))
 
+    # ------------------------------------------------------------------ W: walks over the component tree are complete
+    import recursion as _recw
+    _recw.rule_walkers(F, rep, 'C02.W1', ['buildMaps', 'printComponent'], 2, 'collecting and printing the components')
+
 
